@@ -928,15 +928,21 @@ class CallGraph:
         expr, mod, cls = None, None, None
         if isinstance(root, ast.Name):
             if self._is_local(root.id, f):
-                if root is fn:
-                    rhs = [x for x in self._assignments_to_name(f, root.id)]
-                    if len(rhs) == 1 and isinstance(rhs[0], ast.AST) and not isinstance(rhs[0], ast.Name):
+                rhs = [x for x in self._assignments_to_name(f, root.id)]
+                if len(rhs) == 1 and isinstance(rhs[0], ast.AST) and not isinstance(rhs[0], ast.Name):
+                    if root is fn:
                         return self._table_targets(rhs[0], f, depth + 1)
-                return None
-            r = f.module.resolve_name(root.id)
-            if not r or r[0] != "const":
-                return None
-            expr, mod = r[2], r[1]
+                    if isinstance(rhs[0], (ast.Dict, ast.List, ast.Tuple)) and not any(p.arg == root.id for p in self._params_of(f)):
+                        expr, mod = rhs[0], f.module    # a local literal table of functions / classes
+                    else:
+                        return None
+                else:
+                    return None
+            else:
+                r = f.module.resolve_name(root.id)
+                if not r or r[0] != "const":
+                    return None
+                expr, mod = r[2], r[1]
         elif isinstance(root, ast.Attribute) and isinstance(root.value, ast.Name):
             sn = self.self_name(f)
             if sn is not None and root.value.id == sn:
@@ -1343,6 +1349,8 @@ class Bounds:
         self._locals_cache = {}
         self._fold_cache = {}
         self._setattr_busy = False
+        self.loose_attrs = set()   # (id(cls), attr): bounds are an over-approximation (guards not understood)
+        self.loose_hits = []       # appended whenever such bounds are handed out
 
     # ---- constants -----------------------------------------------------------
     def _local_names(self, f: Func):
@@ -1678,6 +1686,15 @@ class Bounds:
                             s = lst[j]
                             if isinstance(s, ast.Assign) and len(s.targets) == 1 and isinstance(s.targets[0], (ast.Tuple, ast.List)):
                                 names = [x.id if isinstance(x, ast.Name) else None for x in s.targets[0].elts]
+                                if name in names and isinstance(s.value, ast.Call) and isinstance(s.value.func, ast.Name) \
+                                        and s.value.func.id == "divmod" and len(s.value.args) == 2 and len(names) == 2:
+                                    k = self.eval(s.value.args[1], f)
+                                    x = self.eval(s.value.args[0], f)
+                                    if k[0] == k[1] and k[0] > 0:
+                                        if names.index(name) == 1:
+                                            return (0, k[0] - 1)
+                                        return (x[0] // k[0] if x[0] != -INF else -INF, x[1] // k[0] if x[1] != INF else INF)
+                                    return TOP
                                 if name in names and isinstance(s.value, ast.Call) and CallGraph._is_unpack_call(s.value):
                                     fmt = self.unpack_fmt(s.value, f)
                                     if fmt is not None:
@@ -1894,10 +1911,17 @@ class Bounds:
         raise-guards at the top level of __init__ that follow the last store."""
         key = (id(cls), attr, "bounds")
         if key in self._attr:
+            if (id(cls), attr) in self.loose_attrs:
+                self.loose_hits.append("%s.%s" % (cls.name, attr))
             return self._attr[key]
         self._attr[key] = TOP
+        before = len(self.loose_hits)
         r = self._attr_bounds(cls, attr, depth)
+        if len(self.loose_hits) > before:
+            self.loose_attrs.add((id(cls), attr))   # derived from loose bounds (property over a loose attribute ...)
         self._attr[key] = r
+        if (id(cls), attr) in self.loose_attrs:
+            self.loose_hits.append("%s.%s" % (cls.name, attr))
         return r
 
     def _attr_bounds(self, cls, attr, depth):
@@ -1913,14 +1937,23 @@ class Bounds:
                     return iv(int(v))
             return TOP
         out = None
+        cons = self.construction_methods(cls)
         init_only = True
         for m, stmt, tgt, val, slot in stores:
-            if m.name != "__init__":
+            if id(m.node) not in cons:
                 init_only = False
             if val is None:
                 b = TOP
             elif slot is not None:
                 b = TOP
+                if isinstance(val, ast.Call) and isinstance(val.func, ast.Name) and val.func.id == "divmod" and len(val.args) == 2:
+                    k = self.eval(val.args[1], m, depth + 1)
+                    x = self.eval(val.args[0], m, depth + 1)
+                    if k[0] == k[1] and k[0] > 0:
+                        if slot == 1:
+                            b = (0, k[0] - 1)
+                        elif slot == 0:
+                            b = (x[0] // k[0] if x[0] != -INF else -INF, x[1] // k[0] if x[1] != INF else INF)
                 if isinstance(val, ast.Call) and CallGraph._is_unpack_call(val):
                     fmt = self.unpack_fmt(val, m)
                     if fmt is not None:
@@ -1935,50 +1968,253 @@ class Bounds:
             out = TOP
         if init_only:
             out = self._refine_by_guards(cls, attr, stores, out, depth)
+        else:
+            # stored after construction as well: a sound range, but nothing is known about which values occur
+            self.loose_attrs.add((id(cls), attr))
         return out
 
-    def _refine_by_guards(self, cls, attr, stores, b, depth):
+    def construction_methods(self, cls: Cls):
+        """__init__ plus the methods that are only ever called -- as self.m(...) -- from __init__ or from other such
+        methods (private helpers of the constructor) -> {id(node): Func}"""
+        key = (id(cls), "cons")
+        if key in self._attr:
+            return self._attr[key]
         init = cls.lookup("__init__")
-        if init is None or any(m is not init for m, *_ in stores):
+        res = {}
+        if init is not None:
+            res[id(init.node)] = init
+            changed = True
+            while changed:
+                changed = False
+                for name, m in cls.methods.items():
+                    if id(m.node) in res or name.startswith("__") or not self.cg.is_method(m):
+                        continue
+                    sites = self.cg.callsites_of(name)
+                    if not sites:
+                        continue
+                    ok = True
+                    for g, call in sites:
+                        fn = call.func
+                        if not (isinstance(fn, ast.Attribute) and isinstance(fn.value, ast.Name) and fn.value.id == self.cg.self_name(g)
+                                and id(g.node) in res):
+                            ok = False
+                            break
+                    # also referenced without being called (passed around)?
+                    if ok:
+                        res[id(m.node)] = m
+                        changed = True
+        self._attr[key] = res
+        return res
+
+    def _refine_by_guards(self, cls, attr, stores, b, depth):
+        """bounds of self.attr at the NORMAL exits of __init__: for every normal exit (return / falling off the end)
+        that follows the last store, the conditions that must hold to get there -- branch conditions of the enclosing
+        ifs and the negations of earlier `if c: <always leaves>` statements -- are intersected; the exits are joined.
+        Conditions that mention the attribute but are not understood make the result *loose* (recorded in
+        self.loose_attrs): it is then an over-approximation that must not be used as an attainable value."""
+        init = cls.lookup("__init__")
+        cons = self.construction_methods(cls)
+        if init is None or any(id(m.node) not in cons for m, *_ in stores):
             return b
         sn = self.cg.self_name(init)
         body = init.node.body
+        # methods of the constructor family that (transitively) store the attribute
+        storing = {id(m.node) for m, *_ in stores}
+        changed = True
+        while changed:
+            changed = False
+            for mid, m in cons.items():
+                if mid in storing:
+                    continue
+                for n in own_nodes(m.node):
+                    if isinstance(n, ast.Call) and isinstance(n.func, ast.Attribute) and isinstance(n.func.value, ast.Name) \
+                            and n.func.value.id == self.cg.self_name(m):
+                        t2 = cls.lookup(n.func.attr)
+                        if t2 is not None and id(t2.node) in storing:
+                            storing.add(mid)
+                            changed = True
+                            break
         last_store = -1
         for i, s in enumerate(body):
-            for m, stmt, tgt, val, slot in stores:
-                if any(x is stmt for x in [s] + list(own_nodes(s))):
+            for x in [s] + list(own_nodes(s)):
+                if any(x is stmt for m, stmt, *_ in stores):
                     last_store = max(last_store, i)
-        lo, hi = b
-        from .cfg import raises_only
-        for s in body[last_store + 1:]:
-            if isinstance(s, ast.If) and raises_only(s.body) and not s.orelse:
-                conds = s.test.values if isinstance(s.test, ast.BoolOp) and isinstance(s.test.op, ast.Or) else [s.test]
-                for c in conds:
-                    if isinstance(c, ast.Compare) and len(c.ops) == 1:
-                        l, r = c.left, c.comparators[0]
-                        op = c.ops[0]
-                        is_attr = lambda x: isinstance(x, ast.Attribute) and x.attr == attr and isinstance(x.value, ast.Name) and x.value.id == sn
-                        if is_attr(r) and not is_attr(l):
-                            l, r = r, l
-                            op = {ast.Lt: ast.Gt, ast.LtE: ast.GtE, ast.Gt: ast.Lt, ast.GtE: ast.LtE}.get(type(op), type(op))()
-                        if not is_attr(l):
-                            continue
-                        # the other side: a constant, or another attribute with known bounds *at this point*
-                        ob = self.eval(r, init, depth + 1)
-                        if ob == TOP and isinstance(r, ast.Attribute) and isinstance(r.value, ast.Name) and r.value.id == sn and r.attr != attr:
-                            ob = self.attr_bounds(cls, r.attr, depth + 1)
-                        # guard raises when cond true -> on the normal path the negation holds
-                        if isinstance(op, ast.Lt) and ob[0] != -INF:       # not (a < E)  => a >= E >= E.lo
-                            lo = max(lo, ob[0])
-                        elif isinstance(op, ast.LtE) and ob[0] != -INF:    # a > E
-                            lo = max(lo, ob[0] + 1)
-                        elif isinstance(op, ast.Gt) and ob[1] != INF:      # a <= E
-                            hi = min(hi, ob[1])
-                        elif isinstance(op, ast.GtE) and ob[1] != INF:
-                            hi = min(hi, ob[1] - 1)
-            # any later store would have been counted in last_store
-        return (lo, hi)
+                if isinstance(x, ast.Call) and isinstance(x.func, ast.Attribute) and isinstance(x.func.value, ast.Name) and x.func.value.id == sn:
+                    t2 = cls.lookup(x.func.attr)
+                    if t2 is not None and id(t2.node) in storing and t2 is not init:
+                        last_store = max(last_store, i)
+        tail = body[last_store + 1:]
+        self._opaque_raise = False
+        self._inline_cls = (cls, sn)
+        exits, falls = self._normal_exits(tail, [[]])
+        exits = exits + falls
+        if not exits:
+            return b   # the constructor never returns normally
+        loose = [self._opaque_raise]
+        # a rejecting condition over something that is not an attribute / constant (a local computed from the
+        # attributes, a call ...) may constrain this attribute in a way that is not seen here
+        for cons in exits[:64]:
+            for test, truth in cons:
+                for n in ast.walk(test):
+                    if isinstance(n, ast.Call) or (isinstance(n, ast.Name) and n.id != sn and isinstance(self.fold(n, init), Unknown)):
+                        loose[0] = True
+        is_attr = lambda x, a=attr: isinstance(x, ast.Attribute) and x.attr == a and isinstance(x.value, ast.Name) and x.value.id == sn
+        mentions = lambda e: any(is_attr(x) for x in ast.walk(e))
 
+        def atoms(test, truth):
+            """-> list of (compare, truth) that all hold, or None when the information is disjunctive"""
+            if isinstance(test, ast.UnaryOp) and isinstance(test.op, ast.Not):
+                return atoms(test.operand, not truth)
+            if isinstance(test, ast.BoolOp):
+                conj = (isinstance(test.op, ast.And) and truth) or (isinstance(test.op, ast.Or) and not truth)
+                if not conj:
+                    return None
+                out = []
+                for v in test.values:
+                    a = atoms(v, truth)
+                    if a is None:
+                        if mentions(v):
+                            loose[0] = True
+                        continue
+                    out += a
+                return out
+            if isinstance(test, ast.Compare):
+                if len(test.ops) == 1:
+                    return [(test.left, test.ops[0], test.comparators[0], truth)]
+                if truth:
+                    out = []
+                    l = test.left
+                    for op, r in zip(test.ops, test.comparators):
+                        out.append((l, op, r, True))
+                        l = r
+                    return out
+                return None
+            return []
+
+        FLIP = {ast.Lt: ast.Gt, ast.LtE: ast.GtE, ast.Gt: ast.Lt, ast.GtE: ast.LtE, ast.Eq: ast.Eq, ast.NotEq: ast.NotEq}
+        NEG = {ast.Lt: ast.GtE, ast.LtE: ast.Gt, ast.Gt: ast.LtE, ast.GtE: ast.Lt, ast.Eq: ast.NotEq, ast.NotEq: ast.Eq}
+        result = None
+        for cons in exits[:64]:
+            lo, hi = b
+            for test, truth in cons:
+                if not mentions(test):
+                    continue
+                at = atoms(test, truth)
+                if at is None:
+                    loose[0] = True
+                    continue
+                for l, op, r, tr in at:
+                    if not (mentions(l) or mentions(r)):
+                        continue
+                    ot = type(op)
+                    if ot not in FLIP:
+                        loose[0] = True
+                        continue
+                    if is_attr(r) and not is_attr(l):
+                        l, r, ot = r, l, FLIP[ot]
+                    if not is_attr(l) or mentions(r):
+                        loose[0] = True
+                        continue
+                    if not tr:
+                        ot = NEG[ot]
+                    ob = self.eval(r, init, depth + 1)
+                    if ob == TOP and isinstance(r, ast.Attribute) and isinstance(r.value, ast.Name) and r.value.id == sn and r.attr != attr:
+                        ob = self.attr_bounds(cls, r.attr, depth + 1)
+                    if ot is ast.GtE and ob[0] != -INF:
+                        lo = max(lo, ob[0])
+                    elif ot is ast.Gt and ob[0] != -INF:
+                        lo = max(lo, ob[0] + 1)
+                    elif ot is ast.LtE and ob[1] != INF:
+                        hi = min(hi, ob[1])
+                    elif ot is ast.Lt and ob[1] != INF:
+                        hi = min(hi, ob[1] - 1)
+                    elif ot is ast.Eq and ob != TOP:
+                        lo, hi = max(lo, ob[0]), min(hi, ob[1])
+                    elif ot is ast.NotEq and ob[0] == ob[1] and ob[0] == lo:
+                        lo = lo + 1
+                    elif ot is ast.NotEq:
+                        pass
+                    else:
+                        loose[0] = True
+            result = (lo, hi) if result is None else iv_join(result, (lo, hi))
+        if len(exits) > 64:
+            loose[0] = True
+        if loose[0]:
+            self.loose_attrs.add((id(cls), attr))
+        return result if result is not None else b
+
+    def _normal_exits(self, stmts, accs, depth=0):
+        """-> (exits, falls): condition lists [(test, truth), ...] under which a `return` inside `stmts` is reached /
+        under which control falls off the end of `stmts`.  `accs`: condition lists holding on entry."""
+        exits = []
+        cur = [list(a) for a in accs]
+        for s in stmts:
+            if not cur:
+                break
+            if len(cur) > 32 or depth > 8:
+                # too many variants: forget the conditions (sound: fewer constraints)
+                cur = [[]]
+            if isinstance(s, ast.Return):
+                exits += cur
+                cur = []
+            elif isinstance(s, ast.Raise):
+                cur = []
+            elif isinstance(s, ast.If):
+                e1, f1 = self._normal_exits(s.body, [a + [(s.test, True)] for a in cur], depth + 1)
+                e2, f2 = self._normal_exits(s.orelse, [a + [(s.test, False)] for a in cur], depth + 1) if s.orelse \
+                    else ([], [a + [(s.test, False)] for a in cur])
+                exits += e1 + e2
+                cur = f1 + f2
+            elif isinstance(s, ast.For) and isinstance(s.iter, (ast.Tuple, ast.List)) and not s.orelse and len(s.iter.elts) <= 8 \
+                    and not any(isinstance(n, (ast.Break, ast.Continue)) for n in own_nodes(s)):
+                # `for a, b in ((self.x, "x"), (self.y, "y")): if a < K: raise`  -- unrolled with the names substituted
+                for elt in s.iter.elts:
+                    sub = {}
+                    if isinstance(s.target, ast.Name):
+                        sub[s.target.id] = elt
+                    elif isinstance(s.target, (ast.Tuple, ast.List)) and isinstance(elt, (ast.Tuple, ast.List)) and len(elt.elts) == len(s.target.elts):
+                        for t, v in zip(s.target.elts, elt.elts):
+                            if isinstance(t, ast.Name):
+                                sub[t.id] = v
+                    body = [_subst_names(x, sub) for x in s.body]
+                    e1, cur = self._normal_exits(body, cur, depth + 1)
+                    exits += e1
+                    if not cur:
+                        break
+            elif isinstance(s, (ast.For, ast.AsyncFor, ast.While, ast.Try, ast.With, ast.AsyncWith, ast.Match)):
+                if any(isinstance(n, ast.Raise) for n in own_nodes(s)):
+                    self._opaque_raise = True   # rejection logic that is not followed
+                if any(isinstance(n, ast.Return) for n in own_nodes(s)):
+                    exits += cur
+                # break/continue of an enclosing loop are not modelled: keep the conditions gathered so far
+            elif isinstance(s, (ast.Break, ast.Continue)):
+                cur = []
+            elif isinstance(s, ast.Expr) and isinstance(s.value, ast.Call) and getattr(self, "_inline_cls", None) is not None \
+                    and isinstance(s.value.func, ast.Attribute) and isinstance(s.value.func.value, ast.Name) \
+                    and s.value.func.value.id == self._inline_cls[1]:
+                # `self._validate(...)`: the conditions under which the helper returns normally hold afterwards
+                cls_, sn_ = self._inline_cls
+                m = cls_.lookup(s.value.func.attr)
+                if m is not None and depth <= 4 and any(isinstance(n, ast.Raise) for n in own_nodes(m.node)):
+                    msn = self.cg.self_name(m)
+                    body = m.node.body
+                    if msn != sn_:
+                        body = [_subst_names(x, {msn: ast.Name(id=sn_, ctx=ast.Load())}) for x in body]
+                    # parameters of the helper are opaque names: conditions over them count as not understood
+                    e1, f1 = self._normal_exits(body, cur, depth + 2)
+                    cur = e1 + f1     # a `return` of the helper continues in the caller
+                    if any(isinstance(n, ast.Call) and isinstance(n.func, ast.Attribute) and isinstance(n.func.value, ast.Name)
+                           and n.func.value.id == msn and any(isinstance(r, ast.Raise) for r in own_nodes(getattr(cls_.lookup(n.func.attr), "node", ast.Pass())))
+                           for n in own_nodes(m.node) if not isinstance(parent(n), ast.Expr)):
+                        self._opaque_raise = True
+            elif any(isinstance(n, ast.Call) and isinstance(n.func, ast.Attribute) and isinstance(n.func.value, ast.Name)
+                     and getattr(self, "_inline_cls", None) is not None and n.func.value.id == self._inline_cls[1]
+                     and self._inline_cls[0].lookup(n.func.attr) is not None
+                     and any(isinstance(r, ast.Raise) for r in own_nodes(self._inline_cls[0].lookup(n.func.attr).node))
+                     for n in [s] + list(own_nodes(s))):
+                self._opaque_raise = True   # a helper that may reject is called in a position that is not followed
+            # other statements do not constrain
+        return exits, cur
 
 # =============================================================================
 # Stream-position abstract interpretation
@@ -1991,13 +2227,29 @@ def _new_token():
     return _TOKEN[0]
 
 
+def _subst_names(node, sub):
+    """copy of an AST subtree (without parent links) in which the names in `sub` are replaced by expressions"""
+    if not sub:
+        return node
+
+    class T(ast.NodeTransformer):
+        def visit_Name(self, n):
+            if n.id in sub and isinstance(n.ctx, ast.Load):
+                return sub[n.id]
+            return n
+    import copy
+    fresh = ast.parse(ast.unparse(node)).body[0] if isinstance(node, ast.stmt) else ast.parse(ast.unparse(node), mode="eval").body
+    return T().visit(fresh)
+
+
 class SState:
     """abstract state: per stream key the position interval relative to the base point and the
     number of anchored checked bytes; `saved` maps expression text -> (key, lo, hi) for values known
     to equal base_position(key) + [lo, hi]."""
-    __slots__ = ("pos", "anch", "saved", "kend", "tok", "stok", "absp", "inv")
+    __slots__ = ("pos", "anch", "saved", "kend", "tok", "stok", "absp", "inv", "relp")
 
-    def __init__(self, pos=None, anch=None, saved=None, kend=None, tok=None, stok=None, absp=None, inv=None):
+    def __init__(self, pos=None, anch=None, saved=None, kend=None, tok=None, stok=None, absp=None, inv=None, relp=None):
+        self.relp = relp or {}   # key -> (parameter, sign, lo, hi): position == base + sign*parameter + [lo, hi]
         self.absp = absp or {}   # key -> (parameter name, lo, hi): position == value of that parameter + [lo, hi]
         self.inv = inv or {}     # key -> text: the stream was put at a loop-invariant absolute position (same in every iteration)
         self.pos = pos or {}
@@ -2009,7 +2261,7 @@ class SState:
 
     def copy(self):
         return SState(dict(self.pos), dict(self.anch), dict(self.saved), dict(self.kend), dict(self.tok), dict(self.stok), dict(self.absp),
-                      dict(self.inv))
+                      dict(self.inv), dict(self.relp))
 
     def p(self, key):
         return self.pos.get(key, ZERO)
@@ -2051,11 +2303,19 @@ def s_join(a, b):
     for n in set(a.stok) & set(b.stok):
         if a.stok[n] == b.stok[n]:
             out.stok[n] = a.stok[n]
+        elif n in out.saved:
+            # in both states the value was taken at the *current* position of its stream: that relation survives
+            k = out.saved[n][0]
+            if a.stok[n] == a.tok.get(k, 0) and b.stok[n] == b.tok.get(k, 0) and k in out.tok:
+                out.stok[n] = out.tok[k]
     for k in set(a.absp) & set(b.absp):
         if a.absp[k][0] == b.absp[k][0]:
             out.absp[k] = (a.absp[k][0], min(a.absp[k][1], b.absp[k][1]), max(a.absp[k][2], b.absp[k][2]))
     for k in set(a.inv) & set(b.inv):
         out.inv[k] = a.inv[k]
+    for k in set(a.relp) & set(b.relp):
+        if a.relp[k][:2] == b.relp[k][:2]:
+            out.relp[k] = (a.relp[k][0], a.relp[k][1], min(a.relp[k][2], b.relp[k][2]), max(a.relp[k][3], b.relp[k][3]))
     return out
 
 
@@ -2067,8 +2327,11 @@ def s_widen(old, new):
         out.pos[k] = (o[0] if n[0] >= o[0] else -INF, o[1] if n[1] <= o[1] else INF)
         out.anch[k] = min(old.a(k), new.a(k))
     for nme, v in old.saved.items():
-        if new.saved.get(nme) == v:
+        nv = new.saved.get(nme)
+        if nv == v:
             out.saved[nme] = v
+        elif nv is not None and nv[0] == v[0]:
+            out.saved[nme] = (v[0], v[1] if nv[1] >= v[1] else -INF, v[2] if nv[2] <= v[2] else INF)
     for k, v in old.kend.items():
         if new.kend.get(k, -INF) >= v:
             out.kend[k] = v
@@ -2077,6 +2340,10 @@ def s_widen(old, new):
     for n, v in old.stok.items():
         if new.stok.get(n) == v:
             out.stok[n] = v
+        elif n in out.saved and n in new.stok:
+            k = out.saved[n][0]
+            if v == old.tok.get(k, 0) and new.stok[n] == new.tok.get(k, 0) and k in out.tok:
+                out.stok[n] = out.tok[k]
     for k, v in old.absp.items():
         if new.absp.get(k) == v:
             out.absp[k] = v
@@ -2103,10 +2370,15 @@ class Summary:
         self.facts = {}       # (constructors) attr text 'self.x' -> (key, lo, hi): attribute holds position of key at entry + [lo,hi]
         self.unresolved = []  # calls that receive a stream but could not be resolved
         self.abs = {}         # key -> (parameter, lo, hi): on return the stream is at <value of parameter> + [lo, hi]
+        self.kend = {}        # key -> offset (relative to the entry position) up to which bytes are known to exist on return
+        self.rel = {}         # key -> (parameter, sign, lo, hi): on return the stream is at entry position + sign*<parameter> + [lo, hi]
+        self.by_ret = {}      # True/False -> Summary of the paths that return that constant (boolean predicates only)
+        self.ret_pos = None   # (key, lo, hi): the returned value is entry position of key + [lo, hi]
 
     def sig(self):
         return (tuple(sorted(self.keys.items())), self.returns, self.wild, self.has_seek, self.touches, tuple(sorted(self.facts.items())),
-                tuple(sorted(self.abs.items())))
+                tuple(sorted(self.abs.items())), tuple(sorted(self.rel.items())), self.ret_pos, tuple(sorted(self.kend.items())),
+                tuple(sorted((str(k), v.sig()) for k, v in self.by_ret.items())))
 
     def __repr__(self):
         return "Summary(%s%s%s%s)" % (
@@ -2115,6 +2387,42 @@ class Summary:
 
 
 STREAM_METHODS = ("read", "seek", "tell")
+
+
+def _tv3(e, env):
+    """three-valued truth of e given name -> (constant,) ; None = unknown"""
+    def val(x):
+        if isinstance(x, ast.Constant):
+            return (x.value,)
+        if isinstance(x, ast.Name):
+            return env.get(x.id)
+        if isinstance(x, ast.Attribute):
+            return env.get(dotted(x))
+        return None
+    if isinstance(e, ast.BoolOp):
+        vs = [_tv3(v, env) for v in e.values]
+        if isinstance(e.op, ast.And):
+            if any(v is False for v in vs):
+                return False
+            return True if all(v is True for v in vs) else None
+        if any(v is True for v in vs):
+            return True
+        return False if all(v is False for v in vs) else None
+    if isinstance(e, ast.UnaryOp) and isinstance(e.op, ast.Not):
+        v = _tv3(e.operand, env)
+        return None if v is None else (not v)
+    if isinstance(e, ast.Compare) and len(e.ops) == 1:
+        a, b = val(e.left), val(e.comparators[0])
+        if a is None or b is None:
+            return None
+        ops = {ast.Eq: lambda x, y: x == y, ast.NotEq: lambda x, y: x != y, ast.Lt: lambda x, y: x < y, ast.LtE: lambda x, y: x <= y,
+               ast.Gt: lambda x, y: x > y, ast.GtE: lambda x, y: x >= y, ast.Is: lambda x, y: x is y, ast.IsNot: lambda x, y: x is not y}
+        try:
+            return bool(ops[type(e.ops[0])](a[0], b[0])) if type(e.ops[0]) in ops else None
+        except Exception:
+            return None
+    v = val(e)
+    return None if v is None else bool(v[0])
 
 
 class PathOracle:
@@ -2364,6 +2672,22 @@ class StreamAnalysis:
         st0 = SState()
         out = run.block(f.node.body, st0)
         exit_state = s_join(out.fall, out.ret)
+        s = self._summary_from_state(f, run, exit_state)
+        if exit_state is None:
+            return s
+        # boolean predicates: one summary per returned constant  (`if self._skip_foreign_chunk(h): continue`)
+        from .cfg import leaves_only
+        if out.fall is None and run.ret_states and set(run.ret_states) <= {True, False} and leaves_only(f.node.body):
+            for rv, stt in run.ret_states.items():
+                s.by_ret[rv] = self._summary_from_state(f, run, stt)
+        # a function that returns a position of one of its stream parameters
+        if out.fall is None and run.ret_pos and all(p is not None for p in run.ret_pos):
+            k0 = run.ret_pos[0][0]
+            if all(p[0] == k0 for p in run.ret_pos):
+                s.ret_pos = (k0, min(p[1] for p in run.ret_pos), max(p[2] for p in run.ret_pos))
+        return s
+
+    def _summary_from_state(self, f: Func, run, exit_state) -> Summary:
         s = Summary()
         s.has_seek = run.has_seek
         s.touches = run.touches
@@ -2379,9 +2703,13 @@ class StreamAnalysis:
             p, a = exit_state.p(key), exit_state.a(key)
             if root in params or (sn is not None and root == sn):
                 s.keys[key] = (p[0], p[1], a)
+                if exit_state.kend.get(key, -INF) > -INF:
+                    s.kend[key] = exit_state.kend[key]
                 if key in exit_state.absp:
                     s.abs[key] = exit_state.absp[key]
-                if not (root in params and "." not in key) and p[0] < 0 and key not in exit_state.absp:
+                if key in exit_state.relp:
+                    s.rel[key] = exit_state.relp[key]
+                if not (root in params and "." not in key) and p[0] < 0 and key not in exit_state.absp and key not in exit_state.relp:
                     # a stream held in an object (self.x / param.x) may end before where it was
                     s.wild = True
             elif self.is_fresh_local(root, f):
@@ -2401,7 +2729,7 @@ class StreamAnalysis:
         return all(m.name == "__init__" for m, *_ in self.b._stores(cls, attr))
 
     # ------------------------------------------------------------------ loop bodies
-    def loop_effect(self, f: Func, loop, counters=None, collections=None, oracle=None, inv_test=None):
+    def loop_effect(self, f: Func, loop, counters=None, collections=None, oracle=None, inv_test=None, cut=None):
         """abstract effect of ONE iteration of `loop` (ast.While / ast.For / comprehension parent):
         -> (state at the back edge or None if the body never reaches it, run object).  Base point:
         the loop head (position when the test / next() is evaluated)."""
@@ -2410,6 +2738,7 @@ class StreamAnalysis:
         run.collections = set(collections or ())
         run.oracle = oracle
         run.inv_test = inv_test
+        run.cut = set(cut or ())
         st = SState()
         if isinstance(loop, ast.While):
             st = run.expr(loop.test, st)
@@ -2418,8 +2747,13 @@ class StreamAnalysis:
                 st = run._refine_nonempty(st, tr[2])
             out = run.block(loop.body, st)
             back = s_join(out.fall, out.cont)
+            if back is not None:
+                back = run.guard_refines_back_edge(loop.test, back)
         elif isinstance(loop, (ast.For, ast.AsyncFor)):
-            out = run.block(loop.body, st)
+            cb = run.callable_iter(loop.iter)
+            if cb is not None and run._sentinel_read_iter(loop.iter) is None:
+                st = run.expr(cb, st)
+            out = run.block(loop.body, st) if st is not None else Out()
             back = s_join(out.fall, out.cont)
         else:
             raise AnalysisError("loop_effect: unsupported loop node %s" % type(loop).__name__)
@@ -2456,13 +2790,17 @@ class _Run:
         self._read_before = {}  # id(read call) -> (key, position interval before the read) of the latest evaluation
         self._fkeys = None
         self.executed = []      # statements the abstract run went through (in order, with repetitions)
+        self.zero_callees = []     # (callee, its stream key) whose summary allows, but does not prove, that nothing is consumed
         self.unchecked_reads = []  # read calls whose result was not (yet) known to be non-empty when they were executed
         self._exec_ids = None
         self.loose = []         # events after which positions are no longer exact knowledge (reasons, for the verdict policy)
         self.oracle = None      # PathOracle: follow ONE branch of every `if` that is not inside an inner loop
         self.loop_depth = 0
         self.inv_test = None    # callable(expr) -> bool: expr is invariant for the loop under analysis
+        self.ret_states = {}    # constant returned (True/False/None, '?' otherwise) -> joined state at those returns
+        self.ret_pos = []       # per return statement: the returned value as a position (key, lo, hi) or None
         self.cut = set()        # id(stmt): the path ends here (treated like raise)
+        self.break_after = set()  # id(stmt): after this statement the enclosing loop is left (its guard has become false)
         self.assume_true = set()  # id(test expr): loops/ifs with this test never take the false edge
         self.skip_calls = set()   # id(call): the call is treated as having no stream effect
         self.counters = {}      # local name -> True if a guard guarantees name >= 1 at the loop head (shrinking updates allowed)
@@ -2474,6 +2812,7 @@ class _Run:
         st.tok[key] = _new_token()
         st.absp.pop(key, None)
         st.inv.pop(key, None)
+        st.relp.pop(key, None)
         for lw in self.lows:
             lw[key] = min(lw.get(key, INF), p[0])
 
@@ -2481,6 +2820,7 @@ class _Run:
         p = st.p(key)
         ab = st.absp.get(key)
         iv_ = st.inv.get(key)
+        rl_ = st.relp.get(key)
         if low is not None:
             for lw in self.lows:
                 lw[key] = min(lw.get(key, INF), p[0] + low)
@@ -2489,6 +2829,8 @@ class _Run:
             st.absp[key] = (ab[0], ab[1] + d[0], ab[2] + d[1])
         if iv_ is not None:
             st.inv[key] = iv_   # reading / stepping from an invariant position is the same in every iteration
+        if rl_ is not None:
+            st.relp[key] = (rl_[0], rl_[1], rl_[2] + d[0], rl_[3] + d[1])
 
     def _kill(self, st, text):
         """`text` (a name or dotted attribute) is re-bound"""
@@ -2561,6 +2903,8 @@ class _Run:
             l = self.pos_value(e.left, st, subst)
             if l is not None:
                 d = self._int(e.right, subst)
+                if d[0] == -INF and d[1] == INF:
+                    return None   # nothing is known about the offset
                 if isinstance(e.op, ast.Sub):
                     d = iv_neg(d)
                 return (l[0], l[1] + d[0], l[2] + d[1])
@@ -2644,9 +2988,51 @@ class _Run:
         return (pv[0], rp[1] + removed, pv[2])
 
     def _int(self, e, subst=None):
+        n0 = len(self.b.loose_hits)
         if subst is None:
-            return self.b.eval(e, self.f)
-        return self.b.eval(e, subst[3], 0, (subst[0], subst[2]))
+            r = self.b.eval(e, self.f)
+        else:
+            r = self.b.eval(e, subst[3], 0, (subst[0], subst[2]))
+        if len(self.b.loose_hits) > n0:
+            self.loose.append("bounds of %s are an over-approximation (its constructor guards are not fully understood)" % self.b.loose_hits[-1])
+        return r
+
+    def _predicate_branches(self, test, st):
+        """`if H(...)` / `if not H(...)` with H a repository predicate that has one summary per returned constant
+        -> (state on the true branch, state on the false branch) (None where that outcome is impossible)"""
+        neg = False
+        t = test
+        if isinstance(t, ast.UnaryOp) and isinstance(t.op, ast.Not):
+            t, neg = t.operand, True
+        if not isinstance(t, ast.Call):
+            return None
+        ts, kind = self.cg.resolve_call(t, self.f)
+        if len([x for x in ts if x.name != "__new__"]) != 1 or kind not in ("direct", "typed", "super"):
+            return None
+        tgt = [x for x in ts if x.name != "__new__"][0]
+        k = id(tgt.node)
+        summ = self.sa.summaries.get(k)
+        if summ is None:
+            if k in self.sa._in_progress:
+                return None
+            summ = self.sa.summary(tgt)
+        if not summ.by_ret:
+            return None
+        fn = t.func
+        cur = st
+        if isinstance(fn, ast.Attribute):
+            cur = self.expr(fn.value, cur)
+        for a in t.args:
+            cur = self.expr(a.value if isinstance(a, ast.Starred) else a, cur)
+        for kw in t.keywords:
+            cur = self.expr(kw.value, cur)
+        if cur is None:
+            return (None, None)
+        res = {}
+        for rv in (True, False):
+            sm = summ.by_ret.get(rv)
+            res[rv] = self._apply_summary(t, tgt, kind, sm, cur.copy()) if sm is not None else None
+        return (res[False], res[True]) if neg else (res[True], res[False])
 
     def _empty_read_test(self, ifs: ast.If):
         """`ifs` directly follows `z = S.read(N)` and tests the length of z -> (key, True if the TRUE branch is the
@@ -2976,6 +3362,8 @@ class _Run:
         if id(s) in self.cut:
             return Out()
         o = self._stmt(s, st.copy())
+        if id(s) in self.break_after and o.fall is not None:
+            o = Out(brk=s_join(o.brk, o.fall), cont=o.cont, ret=o.ret)
         for x in (o.fall, o.brk, o.cont, o.ret):
             self._acc(x)
         return o
@@ -3028,6 +3416,18 @@ class _Run:
                 st = self.expr(s.target, st)
             return Out(fall=st)
         if isinstance(s, ast.If):
+            pr = self._predicate_branches(s.test, st)
+            if pr is not None:
+                st_t, st_f = pr
+                if self.oracle is not None and self.loop_depth == 0:
+                    if self.oracle.next():
+                        return self.block(s.body, st_t) if st_t is not None else Out()
+                    if st_f is None:
+                        return Out()
+                    return self.block(s.orelse, st_f) if s.orelse else Out(fall=st_f)
+                a = self.block(s.body, st_t) if st_t is not None else Out()
+                b = (self.block(s.orelse, st_f) if s.orelse else Out(fall=st_f)) if st_f is not None else Out()
+                return Out(s_join(a.fall, b.fall), s_join(a.brk, b.brk), s_join(a.cont, b.cont), s_join(a.ret, b.ret))
             st = self.expr(s.test, st)
             if st is None:
                 return Out()
@@ -3054,17 +3454,31 @@ class _Run:
             b = self.block(s.orelse, st_f) if s.orelse else Out(fall=st_f)
             return Out(s_join(a.fall, b.fall), s_join(a.brk, b.brk), s_join(a.cont, b.cont), s_join(a.ret, b.ret))
         if isinstance(s, ast.While):
-            return self._loop(s, st, test=s.test)
+            return self._loop(s, st, test=s.test, at_least_once=self._test_true_on_entry(s))
         if isinstance(s, (ast.For, ast.AsyncFor)):
             sr = self._sentinel_read_iter(s.iter)
             if sr is not None:
                 return self._sentinel_loop(s, st, sr)
+            cb = self.callable_iter(s.iter)
+            if cb is not None:
+                # == while True: x = <callable>(); if x == SENTINEL: break; body
+                st = self._bind(s.target, None, st, None)
+                return self._loop(s, st, test=cb)
             st = self.expr(s.iter, st)
             if st is None:
                 return Out()
             return self._loop(s, st, target=s.target, at_least_once=self._nonempty_const_range(s.iter))
         if isinstance(s, ast.Return):
             st = self.expr(s.value, st) if s.value is not None else st
+            if st is not None and self.loop_depth >= 0:
+                rv = "?"
+                if s.value is None:
+                    rv = None
+                elif isinstance(s.value, ast.Constant) and isinstance(s.value.value, (bool, type(None))):
+                    rv = s.value.value
+                self.ret_states[rv] = s_join(self.ret_states.get(rv), st.copy())
+                pv = self.pos_value(s.value, st) if s.value is not None else None
+                self.ret_pos.append(pv)
             return Out(ret=st)
         if isinstance(s, ast.Raise):
             return Out()
@@ -3135,6 +3549,13 @@ class _Run:
             for (cnode, tgt, before, mapping) in reversed(self.call_states):
                 if cnode is value:
                     summ = self.sa.summaries.get(id(tgt.node))
+                    if summ is not None and summ.ret_pos is not None:
+                        ck = mapping.get(summ.ret_pos[0])
+                        if ck is not None:
+                            p = before.p(ck)
+                            if p[0] != -INF and p[1] != INF:
+                                st.saved[d] = (ck, p[0] + summ.ret_pos[1], p[1] + summ.ret_pos[2])
+                                st.stok.pop(d, None)
                     if summ is not None and tgt.name == "__init__":
                         for attr, (ckey, lo, hi) in summ.facts.items():
                             ck = mapping.get(ckey)
@@ -3144,6 +3565,14 @@ class _Run:
                 elif cnode is not value and self.call_states and cnode is not self.call_states[-1][0]:
                     pass
         return st
+
+    @staticmethod
+    def callable_iter(it):
+        """`iter(lambda: E, SENTINEL)` -> E (evaluated at the start of every iteration and once more when it ends)"""
+        if isinstance(it, ast.Call) and isinstance(it.func, ast.Name) and it.func.id == "iter" and len(it.args) == 2 \
+                and isinstance(it.args[0], ast.Lambda) and not it.args[0].args.args:
+            return it.args[0].body
+        return None
 
     def _sentinel_read_iter(self, it):
         """`iter(lambda: S.read(n), b'')` (or functools.partial(S.read, n)) -> (key, read call or None, n interval)"""
@@ -3250,6 +3679,35 @@ class _Run:
             ret = s_join(ret, o2.ret)
         return Out(fall=s_join(ex, brk), ret=ret)
 
+    def _test_true_on_entry(self, loop: ast.While):
+        """the loop test is certainly true the first time: three-valued evaluation with the constants that simple
+        assignments directly in front of the loop give to its variables (`found = False; while not found:`)"""
+        t = loop.test
+        if isinstance(t, ast.Constant):
+            return bool(t.value)
+        p = parent(loop)
+        env = {}
+        for fld in ("body", "orelse", "finalbody"):
+            lst = getattr(p, fld, None)
+            if isinstance(lst, list) and any(x is loop for x in lst):
+                i = [k for k, x in enumerate(lst) if x is loop][0]
+                names = {n.id for n in ast.walk(t) if isinstance(n, ast.Name)}
+                for j in range(i - 1, -1, -1):
+                    st_ = lst[j]
+                    if isinstance(st_, ast.Assign) and len(st_.targets) == 1 and isinstance(st_.targets[0], ast.Name) \
+                            and isinstance(st_.value, ast.Constant):
+                        nm = st_.targets[0].id
+                        if nm in names and nm not in env:
+                            env[nm] = (st_.value.value,)
+                        continue
+                    if isinstance(st_, (ast.Assign, ast.AnnAssign, ast.AugAssign, ast.Expr)) and not (CallGraph._binds(st_, "") or any(
+                            CallGraph._binds(st_, nm) for nm in names)):
+                        continue
+                    break
+        if not env:
+            return False
+        return _tv3(t, env) is True
+
     def _nonempty_const_range(self, it):
         if isinstance(it, ast.Call) and isinstance(it.func, ast.Name) and it.func.id == "range" and not it.keywords:
             v = self.b.fold(it, self.f)
@@ -3268,6 +3726,13 @@ class _Run:
         ret = None
         if at_least_once:
             t = self._bind(target, None, head.copy(), None) if target is not None else head.copy()
+            if test is not None:
+                t = self.expr(test, t)
+                tr = self._truthy_read(test) if t is not None else None
+                if tr is not None:
+                    t = self._refine_nonempty(t, tr[2])
+                if t is None:
+                    return Out()
             self.loop_depth += 1
             try:
                 o = self.block(s.body, t)
@@ -3282,6 +3747,43 @@ class _Run:
             return self._loop_inner(s, head, test, target, infinite, brk, ret)
         finally:
             self.loop_depth -= 1
+
+    def guard_refines_back_edge(self, test, back):
+        """the loop goes round again only if its guard holds: when a conjunct of the guard says that a name is non-empty
+        and that name holds the result of the latest read of its stream (nothing moved the stream since), the read
+        returned >= 1 byte -- `block = f.read(n)` at the end of the body, `while block and ...:` at the top."""
+        conj = []
+        def flat(t):
+            if isinstance(t, ast.BoolOp) and isinstance(t.op, ast.And):
+                for v in t.values:
+                    flat(v)
+            else:
+                conj.append(t)
+        flat(test)
+        for c in conj:
+            name = None
+            if isinstance(c, ast.Name):
+                name = c.id
+            elif isinstance(c, ast.Call) and isinstance(c.func, ast.Name) and c.func.id == "len" and len(c.args) == 1 and isinstance(c.args[0], ast.Name):
+                name = c.args[0].id
+            elif isinstance(c, ast.Compare) and len(c.ops) == 1 and isinstance(c.left, ast.Name) and isinstance(c.ops[0], ast.NotEq) \
+                    and isinstance(c.comparators[0], ast.Constant) and c.comparators[0].value in (b"", ""):
+                name = c.left.id
+            elif isinstance(c, ast.Compare) and len(c.ops) == 1 and isinstance(c.ops[0], (ast.Gt, ast.GtE)) and isinstance(c.left, ast.Call) \
+                    and isinstance(c.left.func, ast.Name) and c.left.func.id == "len" and len(c.left.args) == 1 and isinstance(c.left.args[0], ast.Name) \
+                    and isinstance(c.comparators[0], ast.Constant) and c.comparators[0].value == (0 if isinstance(c.ops[0], ast.Gt) else 1):
+                name = c.left.args[0].id
+            if name is None:
+                continue
+            rp = back.saved.get("@read:" + name)
+            if rp is None:
+                continue
+            key = rp[0]
+            if back.stok.get("@read:" + name) is None or back.stok.get("@read:" + name) != back.tok.get(key, 0):
+                continue
+            back = self._refine_nonempty(back.copy(), key)
+            break
+        return back
 
     def _truthy_read(self, test):
         """loop/if test that is true exactly when a fresh read returned data: `(z := S.read(n))`, `len(z := S.read(n))`,
@@ -3328,6 +3830,8 @@ class _Run:
             back = s_join(o.fall, o.cont)
             if back is None:
                 break
+            if test is not None:
+                back = self.guard_refines_back_edge(test, back)
             new = s_join(head, back)
             if new == head:
                 break
@@ -3659,6 +4163,9 @@ class _Run:
                 pt = self._param_target(e.args[0])
                 if pt is not None:
                     st.absp[key] = pt
+                rp_ = self._rel_param_target(e.args[0], st, key)
+                if rp_ is not None:
+                    st.relp[key] = rp_
                 if self.inv_test is not None and self.inv_test(e.args[0]):
                     st.inv[key] = ast.unparse(e.args[0])
                 else:
@@ -3694,6 +4201,20 @@ class _Run:
         if not any(p.arg == root for p in self.cg._params_of(f)) or self.cg._assignments_to_name(f, root):
             return None
         return (txt, d[0], d[1])
+
+    def _rel_param_target(self, e, st, key):
+        """seek target `X - p` / `X + p` with X a known position of `key` and p a never re-bound parameter
+        -> (p, sign, lo, hi): the new position is base + sign*p + [lo, hi]"""
+        if not (isinstance(e, ast.BinOp) and isinstance(e.op, (ast.Add, ast.Sub)) and isinstance(e.right, ast.Name)):
+            return None
+        pn = e.right.id
+        f = self.f
+        if not any(p.arg == pn for p in self.cg._params_of(f)) or self.cg._assignments_to_name(f, pn):
+            return None
+        pv = self.pos_value(e.left, st)
+        if pv is None or pv[0] != key:
+            return None
+        return (pn, 1 if isinstance(e.op, ast.Add) else -1, pv[1], pv[2])
 
     def _function_stream_keys(self):
         """keys that this function uses as byte streams anywhere (receiver of read/seek/tell, or a parameter
@@ -3821,6 +4342,27 @@ class _Run:
             k = mapping.get(ckey)
             if k is None:
                 continue
+            rl = summ.rel.get(ckey)
+            if rl is not None and summ.abs.get(ckey) is None:
+                # the callee leaves the stream at (position at the call) + sign*<argument> + [lo, hi]
+                a_expr = self._arg_for_param(e, tgt, rl[0], kind)
+                pv = None
+                if a_expr is not None:
+                    here = ast.Call(func=ast.Attribute(value=ast.parse(k, mode="eval").body, attr="tell", ctx=ast.Load()), args=[], keywords=[])
+                    synth = ast.BinOp(left=here, op=ast.Add() if rl[1] > 0 else ast.Sub(), right=a_expr)
+                    p0 = before.p(k)
+                    pv = self._pushback(synth, before) if rl[1] < 0 else None
+                    if pv is None:
+                        d_ = self._int(a_expr)
+                        d_ = d_ if rl[1] > 0 else iv_neg(d_)
+                        if d_[0] != -INF or d_[1] != INF:
+                            pv = (k, p0[0] + d_[0], p0[1] + d_[1])
+                if pv is not None and pv[0] == k:
+                    self._setpos(st, k, (pv[1] + rl[2], pv[2] + rl[3]))
+                else:
+                    self._setpos(st, k, TOP)
+                    self.loose.append("effect of %s on `%s` depends on an argument that is not understood" % (tgt.qualname, k))
+                continue
             ab = summ.abs.get(ckey)
             if ab is not None:
                 # the callee leaves the stream at <argument> + [lo, hi]
@@ -3839,8 +4381,13 @@ class _Run:
                     self._setpos(st, k, TOP)
                 continue
             low = rest[0] if rest else min(lo, 0)
+            ke = summ.kend.get(ckey)
+            if ke is not None and before.p(k)[0] != -INF:
+                st.kend[k] = max(st.kend.get(k, -INF), before.p(k)[0] + ke)
             if lo == -INF:
                 self.loose.append("effect of %s on `%s` is not known" % (tgt.qualname, k))
+            elif lo <= 0 < hi:
+                self.zero_callees.append((tgt, ckey))   # "may consume nothing" is a lower bound, not an established fact
             p = before.p(k)
             if p[0] >= 0 and anch:
                 st.anch[k] = st.a(k) + anch
